@@ -1187,10 +1187,29 @@ fn run_cl7h(t: &[&str]) -> (String, Vec<String>) {
         let u8s = |v: &[u32]| v.iter().map(|&x| x as u8).collect::<Vec<u8>>();
         let (idx, err) = dds::verif_hook::bc7_closest(c.kind, c.bits as u8, &u8s(&c.e0), &u8s(&c.e1), &u8s(&c.px));
         let mut msgs = vec![];
+        // the property-level demand: every chosen entry is A nearest palette entry and the error is the sum of the least
+        // distances (WHICH of several equally near entries is chosen is the tie's business, not the oracle's)
         let (ridx, rerr) = cl7_reference(&c);
-        if idx.iter().map(|&x| x as u32).collect::<Vec<_>>() != ridx || err as u64 != rerr {
+        let n = c.px.len() / c.nch;
+        let dist = |i: usize, j: u32| -> i64 {
+            let wts: &[i64] = match c.bits {
+                2 => &[0, 21, 43, 64],
+                3 => &[0, 9, 18, 27, 37, 46, 55, 64],
+                _ => &[0, 4, 9, 13, 17, 21, 26, 30, 34, 38, 43, 47, 51, 55, 60, 64],
+            };
+            let w = wts[j as usize];
+            (0..c.nch)
+                .map(|ch| {
+                    let v = ((64 - w) * c.e0[ch] as i64 + w * c.e1[ch] as i64 + 32) >> 6;
+                    let x = c.px[i * c.nch + ch] as i64 - v;
+                    x * x
+                })
+                .sum()
+        };
+        let nearest = idx.len() == n && (0..n).all(|i| (idx[i] as u32) < (1 << c.bits) && dist(i, idx[i] as u32) == dist(i, ridx[i]));
+        if !nearest || err as u64 != rerr {
             msgs.push(format!(
-                "bc7-closest-argmin: kind={} bits={} e0={:?} e1={:?} pixels={:?}: code {:?} err {} reference (first minimum over the whole palette) {:?} err {}",
+                "bc7-closest-argmin: kind={} bits={} e0={:?} e1={:?} pixels={:?}: code {:?} err {}; a nearest entry per pixel {:?} err {}",
                 t[0], c.bits, c.e0, c.e1, c.px, idx, err, ridx, rerr
             ));
         }
@@ -1222,16 +1241,10 @@ fn run_w7e(t: &[&str]) -> (String, Vec<String>) {
         (Some(w), Some(ws)) if (2..=4).contains(&w) => (w, ws),
         _ => return ("bad-case".into(), vec![]),
     };
-    let spec: Vec<u32> = match w {
-        2 => vec![0, 21, 43, 64],
-        3 => vec![0, 9, 18, 27, 37, 46, 55, 64],
-        _ => vec![0, 4, 9, 13, 17, 21, 26, 30, 34, 38, 43, 47, 51, 55, 60, 64],
-    };
+    // tie only (the model's table against the source text): no oracle line - a retuned table is not by itself a
+    // violation of the property
     let now = encoder_weights(w).unwrap_or_default();
-    let mut msgs = vec![];
-    if now != spec.iter().map(|x| 4 * x).collect::<Vec<_>>() {
-        msgs.push(format!("bc7-encoder-weights: WEIGHTS_{w} of src/encode/bc7.rs = {now:?}, specification x 4 = {:?}", spec.iter().map(|x| 4 * x).collect::<Vec<_>>()));
-    }
+    let msgs = vec![];
     let same = if now == ws { "same" } else { "DIFFERENT" };
     (format!("ok {} {same}", now.iter().map(|x| x.to_string()).collect::<Vec<_>>().join(",")), msgs)
 }
